@@ -325,6 +325,9 @@ def inputs_c01(rng, tier):
     for tc in (9, 18, 20) if tier == "quick" else list(range(9, 19)) + [20, 21, 22]:
         fr += field_sweep(rng, lambda tc=tc: es_frame(rng, rng.choice((17, 18)), tc), 40, 12)
     fr += field_sweep(rng, lambda: es_frame(rng, 17, 28), 43, 13)
+    # the complete type-31 acceptance grid (every reserved-bit / version combination): whatever is accepted is rendered
+    fr += [bytearray(i["bytes"]) for i in inputs_c02(rng, "quick") if len(i["bytes"]) >= 5 and (i["bytes"][0] >> 3) in (17, 18)
+           and (i["bytes"][4] >> 3) == 31]
     for p in ("C07", "C08", "C10", "C04"):
         x = [bytearray(i["bytes"]) for i in GENERATORS_LATE[p](rng, "quick")]
         rng.shuffle(x)
@@ -470,6 +473,8 @@ def run(prop, tier, seed, rep, extra_inputs=None):
     import os
     json.dump(summary, open(os.path.join(core.BUILD, f"last_{prop}_verdicts.json"), "w"), indent=1, sort_keys=True)
     events = [e for e in events if e["ev"] == "decode"]
+    if prop == "C03":
+        reader_path_checksums(rng, tier, rep, hx)
     if tier == "thorough":
         selftest(prop, rep, events)
     distinct = len({bytes(e["bytes"]) for e in events})
@@ -551,3 +556,30 @@ def selftest(prop, rep, events):
         return e
     lo = max(0, idx - 5)
     core.anti_vacuity(rep, "Trace_Decode", sample[lo:idx + 40], [(idx - lo, mut, prop)], name=f"{prop}-selftest")
+
+
+def reader_path_checksums(rng, tier, rep, hx):
+    """C03 on the other decode path: frames (valid squitters and burst-corrupted ones) decoded from a reader that returns
+    short reads; the reported checksum is judged against Crc!Checksum by Trace_Reader (owner C03)"""
+    import reader_checks
+    ins = []
+    for _ in range(q(tier, 1500, 20000)):
+        df = rng.choice((17, 17, 18, 11, 4, 20, 21, 0, 16))
+        b = with_parity(es_frame(rng, df) if df in (17, 18) else rnd_frame(rng, df))
+        if rng.random() < 0.5:
+            ln = rng.randrange(1, 25)
+            st = rng.randrange(0, 8 * len(b) + 1 - ln)
+            for k in range(ln):
+                if k in (0, ln - 1) or rng.random() < 0.5:
+                    b[(st + k) // 8] ^= 0x80 >> ((st + k) % 8)
+        script = [rng.choice((1, 1, 2, 3, 20)) for _ in range(rng.randrange(4, 40))]
+        ins.append({"bytes": list(b), "script": script, "tag": "crcpath", "between": []})
+    ev = reader_checks.hx_reader(hx, ins)
+    verdicts, st, tr = core.validate_events("Trace_Reader", ev, "C03-reader")
+    rep.add_trace_stats(st, tr, len(ev))
+    for v in verdicts:
+        e = ev[v["index"]]
+        for owner, field in v["pairs"]:
+            rep.mismatch(owner, v["cls"], field, {"kind": "reader", "bytes": e["bytes"], "hex": bytes(e["bytes"]).hex(), "script": e["script"],
+                                                  "out": e["out"], "plain": e["plain"]})
+    rep.extra["reader_path_decodes"] = len(ev)
